@@ -37,15 +37,17 @@ fn main() {
     let ld = load_graph(&GSpec::default());
     let g = empty_mgraph();
     let params = make_params(&[], None);
-    const WRAPPERS: usize = 22;
+    const WRAPPERS: usize = 30;
 
     // corpus first: the witnesses of the repaired defects (5cbdabf) and of the known finding
-    let corpus: Vec<(usize, usize, usize)> = vec![(1, 0, 0), (3, 1, 0), (4, 0, 0), (9, 0, 1), (7, 1, 1), (8, 2, 1), (21, 0, 0)]; // (wrapper, bad position, k)
+    let corpus: Vec<(usize, usize, usize)> = vec![(1, 0, 0), (3, 1, 0), (4, 0, 0), (9, 0, 1), (7, 1, 1), (8, 2, 1), (29, 0, 0), (21, 1, 0), (26, 0, 0)]; // (wrapper, bad position, k)
 
     for idx in 0..a.n {
         let (fname, f, bad, good) = failing(&mut r);
-        let n = 2 + r.below(4) as usize;
-        let (w, bad_pos, k) = if idx < corpus.len() { corpus[idx] } else { (idx % WRAPPERS, r.below(n as u64) as usize, r.below(n as u64 + 1) as usize) };
+        let n = match r.below(9) { 0..=2 => 1, 3..=4 => 2, 5 => 3, 6 => 4, 7 => 5, _ => 8 } as usize;
+        let pos = match r.below(3) { 0 => 0, 1 => n - 1, _ => r.below(n as u64) as usize };
+        let (w, bad_pos, k) = if idx < corpus.len() { corpus[idx] } else { (idx % WRAPPERS, pos, r.below(n as u64 + 1) as usize) };
+        let n = if idx < corpus.len() { n.max(3) } else { n };
         let bad_pos = bad_pos.min(n - 1);
         let mut vals: Vec<MV> = (0..n).map(|_| r.pick(&good).clone()).collect();
         vals[bad_pos] = bad.clone();
@@ -78,6 +80,26 @@ fn main() {
             18 => ("unwind", Query::Single(vec![unwind, Clause::With(proj1(f.clone()), None), Clause::Unwind(Ex::List(vec![Ex::Var(1)]), 2), Clause::Return(Proj { items: vec![(2, Ex::Var(2))], ..Default::default() })])),
             19 => ("unwind-expr", Query::Single(vec![unwind, Clause::Unwind(Ex::List(vec![f.clone()]), 1), Clause::Return(proj1(Ex::Var(1)))])),
             20 => ("where", Query::Single(vec![unwind, Clause::With(Proj { items: vec![(0, Ex::Var(0))], ..Default::default() }, Some(Ex::Un(Un::IsNotNull, Box::new(f.clone())))), Clause::Return(proj1(Ex::Var(0)))])),
+            21 => ("count-star-then-collect", Query::Single(vec![unwind, Clause::Agg(vec![], vec![(1, Agg::CountStar), (2, Agg::Collect(f.clone()))], ident_proj(&[1, 2]), None, true)])),
+            22 => ("count-star-then-count", Query::Single(vec![unwind, Clause::Agg(vec![], vec![(1, Agg::CountStar), (2, Agg::Count(f.clone()))], ident_proj(&[1, 2]), None, true)])),
+            23 => ("collect-then-count-star", Query::Single(vec![unwind, Clause::Agg(vec![], vec![(1, Agg::Collect(f.clone())), (2, Agg::CountStar)], ident_proj(&[1, 2]), None, true)])),
+            24 => ("three-aggregates-failing-last", Query::Single(vec![unwind, Clause::Agg(vec![], vec![(1, Agg::Count(Ex::Var(0))), (2, Agg::CountStar), (3, Agg::Max(f.clone()))], ident_proj(&[1, 2, 3]), None, true)])),
+            25 => ("with-count-star-then-min", Query::Single(vec![unwind, Clause::Agg(vec![], vec![(1, Agg::CountStar), (2, Agg::Min(f.clone()))], ident_proj(&[1, 2]), None, false), Clause::Return(Proj { items: vec![(1, Ex::Var(1)), (2, Ex::Var(2))], ..Default::default() })])),
+            26 => {
+                // the failing expression is only a sort key (over the projected column), never projected
+                let key = match &f { Ex::Fn(fun, args) => { let mut a = args.clone(); let last = a.len() - 1; a[last] = Ex::Var(1); Ex::Fn(*fun, a) } other => other.clone() };
+                ("order-by-unprojected-key", Query::Single(vec![unwind, Clause::Return(Proj { order: vec![(key, asc)], ..proj1(Ex::Var(0)) })]))
+            }
+            27 => {
+                let key = match &f { Ex::Fn(fun, args) => { let mut a = args.clone(); let last = a.len() - 1; a[last] = Ex::Var(1); Ex::Fn(*fun, a) } other => other.clone() };
+                ("with-order-by-unprojected-key", Query::Single(vec![unwind, Clause::With(Proj { order: vec![(key, asc)], ..proj1(Ex::Var(0)) }, None), Clause::Return(proj1(Ex::Var(1)))]))
+            }
+            28 => {
+                // the sort key reads the input variable, which the projection does not keep (pass-through column in the plan): engine only
+                let lits = vals.iter().map(|v| cypher_lit(v).unwrap()).collect::<Vec<_>>().join(", ");
+                text_override = Some(format!("UNWIND [{}] AS v0 RETURN v0 AS v1 ORDER BY {}{}", lits, cy_ex(&f), if asc { "" } else { " DESC" }));
+                ("order-by-input-variable-key", Query::Single(vec![]))
+            }
             _ => {
                 // K-C22-exists: the failing expression sits inside an EXISTS { } subquery (not in the Coq query language)
                 known = Some("K-C22-exists");
@@ -91,6 +113,8 @@ fn main() {
         evaluations += 1;
         *hist.entry(format!("wrapper:{}", wname)).or_insert(0) += 1;
         *hist.entry(format!("failing:{}", fname)).or_insert(0) += 1;
+        *hist.entry(format!("rows:{}", if n >= 4 { "many".to_string() } else { n.to_string() })).or_insert(0) += 1;
+        *hist.entry(format!("failing-row-position:{}", if n == 1 { "only" } else if bad_pos == 0 { "first" } else if bad_pos == n - 1 { "last" } else { "middle" })).or_insert(0) += 1;
         *hist.entry(match &out { Outcome::Rows(_) => "outcome:rows".to_string(), Outcome::Err(c, _) => format!("outcome:error-class-{}", c) }).or_insert(0) += 1;
         *hist.entry(if consumed { "failing-row:consumed" } else { "failing-row:beyond-limit" }.to_string()).or_insert(0) += 1;
         let input = json!({"query": text, "wrapper": wname, "failing_expression": fname, "bad_position": bad_pos, "k": k, "consumed": consumed, "outcome": js_outcome(&out)});
@@ -126,7 +150,7 @@ fn main() {
         "evaluations": evaluations,
         "corr_cases": cw.total,
         "distinct_nontrivial": nontrivial.len(),
-        "rule": "UNWIND of 2-5 literals of which exactly one makes toBoolean/toInteger/toFloat/list-index raise a runtime error, at a random position, wrapped in one of 22 operator contexts (RETURN, DISTINCT, UNION left/right/ALL, ORDER BY with and without LIMIT/SKIP, SKIP, LIMIT, count/collect/min/max, aggregation over error rows, grouping key, UNWIND, WHERE, EXISTS subquery); non-trivial = accepted by the compiler, distinct by query text",
+        "rule": "UNWIND of 1, 2, 3-5 or 8 literals (one row a third of the time) of which exactly one - first, last, only or anywhere - makes toBoolean/toInteger/toFloat/list-index raise a runtime error, at a random position, wrapped in one of 30 operator contexts (multi-aggregate projections with count(*) before / after the failing aggregate, ORDER BY keys that are not projected, RETURN, DISTINCT, UNION left/right/ALL, ORDER BY with and without LIMIT/SKIP, SKIP, LIMIT, count/collect/min/max, aggregation over error rows, grouping key, UNWIND, WHERE, EXISTS subquery); non-trivial = accepted by the compiler, distinct by query text",
         "histogram": hist,
         "direct_failures": fails,
         "case_files": cw.files.iter().map(|p| p.to_string_lossy().to_string()).collect::<Vec<_>>(),
